@@ -169,8 +169,17 @@ def uiOp (j : Json) : Except String Res := do
     -- C12/C20 through the UI: what the hook was started with, in order, is what the numbers and
     -- media keys typed name (also while an earlier hook was still running)
     let openedOk := panicked || (impl.getObjVal? "opened").toOption.isNone ||
-      (impl.getObjVal? "opened").toOption == some (Json.arr opened)
-    pure { model := if panicked then panicJson else Json.mkObj [("opened", Json.arr opened), ("snaps", Json.arr snaps)],
+      -- (the hook programs are separate processes that write their own line of the record: two
+      -- started within microseconds of each other may write in either order — compared as multisets)
+      (match impl.getObjVal? "opened" with
+        | .ok (Json.arr a) =>
+          let key (v : Json) : String := v.compress
+          (a.toList.map key).mergeSort (· ≤ ·) == (opened.toList.map key).mergeSort (· ≤ ·)
+        | _ => false)
+    -- the record of started hooks is compared as a multiset (see above): both sides list it sorted
+    let openedSorted : Array Json := ((opened.toList.map fun v => v.compress).mergeSort (· ≤ ·)).toArray.map fun t =>
+      (Json.parse t).toOption.getD Json.null
+    pure { model := if panicked then panicJson else Json.mkObj [("opened", Json.arr openedSorted), ("snaps", Json.arr snaps)],
            preds := [("frames_have_terminal_height", heights.all (fun p => p.2 < 2 || p.1 == p.2)),
                      ("frames_safe", frames.all Safe.safe),
                      ("frames_neutral", frames.all Cells.neutralAtBreaks),
